@@ -40,8 +40,8 @@ CLAIMED = {
          "arguments (scalar and vector lookup with repeats, absent keys refused; scalar and vector assignment with scalar or per-key values; contains; "
          "HashSet.contains scalar and vector; fill; zeros_like/ones_like; +; ==; items) followed by a read-back of every key; distinct symbolic keys up to 2^62 "
          "(and int8/uint8 keys, also queried -- HashTable and HashSet -- through wider int64 vectors whose out-of-range values must count as absent), tables derived by zeros_like / ones_like (also from derived and from scalar-valued tables, narrow key dtypes) then written and read, modulus forked over 1..2 (3) and the default 2n-1, numpy's unstable argsort modelled as any sorting permutation",
-         "bounds: keys<=2 (3), queries<=2 (3); preconditions: scalar lookups/assignments address present keys, vector assignment targets distinct; "
-         "KF-C11-1 (scalar-valued table does not check membership) is an open known finding"),
+         "bounds: keys<=2 (3), queries<=2 (3); preconditions: scalar lookups/assignments address present keys, vector assignment targets distinct; float-valued tables as IEEE bit patterns stored and returned unchanged; "
+         "KF-C11-1 (scalar-valued table did not check membership) was repaired in /repo"),
  "C12": ("4/C12", "Counter: initial value default 0 / scalar / per-key array, then one or two count(batch) calls with symbolic samples (keys, colliding non-keys, "
          "non-keys in empty buckets, repeats, empty batches, python lists), then every key read back: total = initial + occurrences; every modulus 1..2(3) and the default",
          "bounds: symbolic keys<=2 (3), batch<=2 (3), batches<=2; plus concrete key sets of 3-4 keys (with and without bucket collisions, moduli 1..7 and default) with symbolic batches of <=3 (4) samples in +-16"),
